@@ -1,9 +1,17 @@
 //! Genuine NSEC / NSEC3 chains of a reference zone, the *claims* a negative or wildcard-expanded
-//! response makes (DESIGN App. A.4) and the counter-model search (App. A.5). Plain types only;
-//! built on `refzone`.
+//! response makes (DESIGN App. A.4) and the pieces of the counter-model test (App. A.5) that are
+//! evaluated on the slow, trusted `refzone` model. Plain types only; built on `refzone`.
+//!
+//! Semantics (two-level model, App. A.1): a world is the zone Z plus an *arbitrary* child zone under
+//! every cut of Z. A claim about a name at or below a cut (other than "no DS at the cut") is false
+//! in the world whose child zone holds that RRset, whatever Z's own records say – RFC 6840 §4.1
+//! ("ancestor delegation" NSEC RRs must not be used to assume non-existence of anything at or below
+//! the cut except DS) and §4.4.
 #![allow(dead_code)]
 
 use std::collections::{BTreeMap, BTreeSet};
+
+use serde_json::{json, Value};
 
 use crate::refzone::{self, child, fold, is_strict_subdomain, is_subdomain, suffix, ty, wildcard_of, CName, Name, Zone};
 
@@ -21,12 +29,31 @@ pub struct Nsec {
     pub types: BTreeSet<u16>,
 }
 
+impl Nsec {
+    pub fn to_json(&self) -> Value {
+        json!({"owner": refzone::show(&self.owner), "next": refzone::show(&self.next), "types": self.types.iter().map(|t| refzone::type_name(*t)).collect::<Vec<_>>()})
+    }
+    pub fn from_json(v: &Value) -> Option<Nsec> {
+        let owner = refzone::name(v["owner"].as_str()?);
+        let next = refzone::name(v["next"].as_str()?);
+        let mut types = BTreeSet::new();
+        for t in v["types"].as_array()? {
+            types.insert(refzone::type_code(t.as_str()?)?);
+        }
+        Some(Nsec { owner, next, types })
+    }
+    pub fn show(&self) -> String {
+        format!("{} NSEC {} ({})", refzone::show(&self.owner), refzone::show(&self.next), self.types.iter().map(|t| refzone::type_name(*t)).collect::<Vec<_>>().join(" "))
+    }
+}
+
 /// types shown in the denial bitmap at `n` (n owns visible data)
 fn bitmap_types(z: &Zone, n: &[Vec<u8>], self_type: u16) -> BTreeSet<u16> {
     let mut t: BTreeSet<u16> = BTreeSet::new();
     if let Some(node) = z.node(n) {
         if z.is_delegation(n) {
-            // parent side of a cut: NS and DS only (glue address records at the cut are occluded data)
+            // RFC 4035 §2.3: at a delegation point only the bits for NS and for the RRsets the parent
+            // is authoritative for (DS) are set; everything else at the cut name is occluded data
             for k in node.keys() {
                 if *k == ty::NS || *k == ty::DS {
                     t.insert(*k);
@@ -54,7 +81,7 @@ pub fn nsec_chain(z: &Zone) -> Vec<Nsec> {
 }
 
 // ---------------------------------------------------------------------------------------------
-// NSEC3 chain (App. A.3)
+// NSEC3 chain (App. A.3) – not used by C08; kept for the NSEC3 twin of this check
 
 #[derive(Clone, Debug, PartialEq, Eq, PartialOrd, Ord)]
 pub struct Nsec3Params {
@@ -148,16 +175,22 @@ pub fn nsec3_chain(z: &Zone, p: &Nsec3Params) -> Vec<Nsec3> {
     out
 }
 
+pub fn nsec3_subset_of_chain(s: &[Nsec3], z: &Zone, p: &Nsec3Params) -> bool {
+    let chain = nsec3_chain(z, p);
+    s.iter().all(|r| chain.iter().any(|c| c.hash == r.hash && c.next == r.next && c.types == r.types && c.opt_out == r.opt_out))
+}
+
 // ---------------------------------------------------------------------------------------------
 // claims (App. A.4)
 
-#[derive(Clone, Debug, PartialEq, Eq)]
+#[derive(Clone, Copy, Debug, PartialEq, Eq, Hash, PartialOrd, Ord)]
 pub enum Claim {
-    /// rcode NXDOMAIN, no answer
+    /// rcode NXDOMAIN
     NxDomain,
     /// rcode NOERROR, no answer
     NoData,
-    /// rcode NOERROR, answer synthesised from `*.`(rightmost `labels` labels of qname)
+    /// rcode NOERROR, answer RRset of the query type whose RRSIG has Labels = `labels`, i.e.
+    /// synthesised from `*.`(rightmost `labels` labels of qname)
     Expansion { labels: usize },
 }
 
@@ -171,36 +204,108 @@ impl Claim {
     }
 }
 
-#[derive(Clone, Debug, PartialEq, Eq)]
-pub enum Truth {
-    True,
-    /// unambiguously false, with the reason
-    False(&'static str),
-    /// at or below a zone cut (qtype != DS at the cut): parent records cannot entail it
-    NotEntailable(&'static str),
-    /// false only in an "ambiguous" way (e.g. NODATA claimed where NXDOMAIN is the truth)
-    Ambiguous(&'static str),
+/// Why a claim is false (ordered: the order is the priority used when several counter-models of the
+/// same size exist, so that signatures are stable).
+#[derive(Clone, Copy, Debug, PartialEq, Eq, Hash, PartialOrd, Ord)]
+pub enum Reason {
+    QnameExists,
+    WildcardMatches,
+    TypePresent,
+    CnamePresent,
+    CloserEncloser,
+    AtCut,
+    BelowCut,
+    MatchedNodeIsCut,
+    OutsideZone,
 }
 
-/// Is the claim true of zone `z`? (q is expected inside the zone)
+impl Reason {
+    pub const ALL: [Reason; 9] = [
+        Reason::QnameExists,
+        Reason::WildcardMatches,
+        Reason::TypePresent,
+        Reason::CnamePresent,
+        Reason::CloserEncloser,
+        Reason::AtCut,
+        Reason::BelowCut,
+        Reason::MatchedNodeIsCut,
+        Reason::OutsideZone,
+    ];
+    pub fn tag(&self) -> &'static str {
+        match self {
+            Reason::QnameExists => "qname-exists",
+            Reason::WildcardMatches => "wildcard-matches",
+            Reason::TypePresent => "type-present",
+            Reason::CnamePresent => "cname-present",
+            Reason::CloserEncloser => "closer-encloser-exists",
+            Reason::AtCut => "at-cut",
+            Reason::BelowCut => "below-cut",
+            Reason::MatchedNodeIsCut => "matched-node-is-cut",
+            Reason::OutsideZone => "outside-zone",
+        }
+    }
+    pub fn text(&self) -> &'static str {
+        match self {
+            Reason::QnameExists => "the query name exists",
+            Reason::WildcardMatches => "a wildcard at the closest encloser would match",
+            Reason::TypePresent => "the type is present at the matched node",
+            Reason::CnamePresent => "a CNAME is present at the matched node",
+            Reason::CloserEncloser => "a closer encloser than the expanded wildcard's parent exists",
+            Reason::AtCut => "the query name is a zone cut and the claim is not DS-NODATA: the child zone decides",
+            Reason::BelowCut => "the query name is below a zone cut: the child zone decides",
+            Reason::MatchedNodeIsCut => "the matched node is a zone cut",
+            Reason::OutsideZone => "the query name is outside the zone",
+        }
+    }
+    pub fn from_index(i: u8) -> Reason {
+        Reason::ALL[i as usize]
+    }
+    pub fn index(&self) -> u8 {
+        Reason::ALL.iter().position(|r| r == self).unwrap() as u8
+    }
+}
+
+#[derive(Clone, Copy, Debug, PartialEq, Eq)]
+pub enum Truth {
+    True,
+    /// unambiguously false in the zone itself
+    False(Reason),
+    /// at or below a zone cut (and not DS-NODATA at the cut): false in the world whose child zone
+    /// holds the RRset, so parent-side records cannot entail it
+    NotEntailable(Reason),
+    /// not what the zone would answer, but not one of the unambiguous falsifications of App. A.5
+    /// (e.g. NODATA claimed where NXDOMAIN is the truth) – never alarmed on
+    Ambiguous,
+}
+
+impl Truth {
+    pub fn falsified(&self) -> Option<Reason> {
+        match self {
+            Truth::False(r) | Truth::NotEntailable(r) => Some(*r),
+            _ => None,
+        }
+    }
+}
+
+/// Is the claim true of zone `z`?
 pub fn claim_truth(z: &Zone, q: &[Vec<u8>], t: u16, claim: &Claim) -> Truth {
     if !z.in_zone(q) {
-        return Truth::NotEntailable("qname outside the zone");
+        return Truth::NotEntailable(Reason::OutsideZone);
     }
     if z.occluded(q) {
-        return Truth::NotEntailable("qname below a zone cut");
+        return Truth::NotEntailable(Reason::BelowCut);
     }
     if z.is_delegation(q) && !(t == ty::DS && *claim == Claim::NoData) {
-        return Truth::NotEntailable("qname at a zone cut and the claim is not DS-NODATA");
+        return Truth::NotEntailable(Reason::AtCut);
     }
     match claim {
         Claim::NxDomain => {
             if z.exists(q) {
-                return Truth::False("qname exists");
+                return Truth::False(Reason::QnameExists);
             }
             let w = z.source_of_synthesis(q);
             if z.exists(&w) {
-                return Truth::False("a wildcard at the closest encloser would match");
+                return Truth::False(Reason::WildcardMatches);
             }
             Truth::True
         }
@@ -210,148 +315,53 @@ pub fn claim_truth(z: &Zone, q: &[Vec<u8>], t: u16, claim: &Claim) -> Truth {
             } else {
                 let w = z.source_of_synthesis(q);
                 if !z.exists(&w) {
-                    return Truth::Ambiguous("neither qname nor a matching wildcard exists (NXDOMAIN is the truth)");
+                    // neither qname nor a matching wildcard exists: NXDOMAIN is the truth
+                    return Truth::Ambiguous;
                 }
                 w
             };
             if z.is_delegation(&node) && t != ty::DS {
-                return Truth::NotEntailable("matched node is a zone cut");
+                return Truth::NotEntailable(Reason::MatchedNodeIsCut);
             }
             let auth = z.authoritative_types(&node);
             if auth.contains(&t) {
-                return Truth::False("the type is present at the matched node");
+                return Truth::False(Reason::TypePresent);
             }
             if auth.contains(&ty::CNAME) && t != ty::CNAME {
-                return Truth::False("a CNAME is present at the matched node");
+                return Truth::False(Reason::CnamePresent);
             }
             Truth::True
         }
         Claim::Expansion { labels } => {
+            if *labels + 1 == q.len() && refzone::is_wildcard(q) {
+                // the "expanded" owner is the wildcard owner itself: a plain positive answer, no denial
+                return Truth::Ambiguous;
+            }
             if z.exists(q) {
-                return Truth::False("qname exists");
+                return Truth::False(Reason::QnameExists);
             }
             let ce = z.closest_encloser(q);
             if ce.len() > *labels {
-                return Truth::False("a closer encloser than the expanded wildcard exists");
+                return Truth::False(Reason::CloserEncloser);
             }
             if ce.len() < *labels {
-                // the claimed wildcard's parent does not even exist: the RRSIG could not be genuine
-                return Truth::Ambiguous("claimed wildcard is not at the closest encloser (its parent does not exist)");
+                // the claimed wildcard's parent does not exist: its RRSIG could not be genuine here
+                return Truth::Ambiguous;
             }
             Truth::True
         }
     }
 }
 
-// ---------------------------------------------------------------------------------------------
-// counter-model search (App. A.5)
-
-/// names whose content the search toggles
-pub fn relevant_names(z: &Zone, q: &[Vec<u8>]) -> Vec<Name> {
-    let mut v: Vec<Name> = Vec::new();
-    let q = fold(q);
-    let mut k = q.len();
-    while k > z.apex.len() {
-        let a = suffix(&q, k);
-        v.push(a.clone());
-        if k < q.len() || true {
-            v.push(wildcard_of(&suffix(&q, k - 1)));
-        }
-        k -= 1;
+/// The positive half of an expansion response is evidence too: the answer RRset with an RRSIG whose
+/// Labels field is `labels` is genuine only in zones where `*.`(rightmost `labels` labels of q) is an
+/// authoritative owner of the type.
+pub fn expansion_evidence(z: &Zone, q: &[Vec<u8>], t: u16, labels: usize) -> bool {
+    if labels >= q.len() || labels < z.apex.len() {
+        return false;
     }
-    v.push(wildcard_of(&z.apex));
-    v.push(child(b"c", &q));
-    v.sort();
-    v.dedup();
-    v.retain(|n| z.in_zone(n) && *n != z.apex);
-    v
-}
-
-#[derive(Clone, Debug)]
-pub enum Edit {
-    Remove(Name),
-    /// make the node hold exactly this type (A-like data), replacing what is there
-    SetOnly(Name, u16),
-    /// add the type to the node
-    AddType(Name, u16),
-}
-
-fn apply(z: &Zone, e: &Edit) -> Option<Zone> {
-    let mut z2 = z.clone();
-    match e {
-        Edit::Remove(n) => {
-            if !z2.remove_name(n) {
-                return None;
-            }
-        }
-        Edit::SetOnly(n, t) => {
-            z2.remove_name(n);
-            z2.add(n, *t, filler_rdata(*t, &z.apex));
-        }
-        Edit::AddType(n, t) => {
-            if !z2.can_add(n, *t) || !z2.add(n, *t, filler_rdata(*t, &z.apex)) {
-                return None;
-            }
-        }
-    }
-    Some(z2)
-}
-
-fn filler_rdata(t: u16, apex: &[Vec<u8>]) -> Vec<u8> {
-    match t {
-        x if x == ty::A => refzone::rd_a(200),
-        x if x == ty::AAAA => refzone::rd_aaaa(200),
-        x if x == ty::MX => refzone::rd_mx(5, apex),
-        x if x == ty::CNAME || x == ty::NS => refzone::rd_name(apex),
-        x if x == ty::DS => refzone::rd_ds(77),
-        _ => refzone::rd_txt("counter-model"),
-    }
-}
-
-pub fn single_edits(z: &Zone, q: &[Vec<u8>], t: u16) -> Vec<Edit> {
-    let other = if t == ty::TXT { ty::A } else { ty::TXT };
-    let mut v = Vec::new();
-    for n in relevant_names(z, q) {
-        v.push(Edit::Remove(n.clone()));
-        v.push(Edit::SetOnly(n.clone(), t));
-        v.push(Edit::SetOnly(n.clone(), other));
-        v.push(Edit::AddType(n.clone(), t));
-        if t != ty::CNAME {
-            v.push(Edit::SetOnly(n.clone(), ty::CNAME));
-        }
-    }
-    v
-}
-
-/// Search zones within two edits of `z` in which every record of the supplied proof is genuine
-/// (`contains(z')`) and the claim is unambiguously false. Returns the first counter-model.
-pub fn counter_model(z: &Zone, q: &[Vec<u8>], t: u16, claim: &Claim, contains: &dyn Fn(&Zone) -> bool, max_double: usize) -> Option<(Zone, Vec<Edit>)> {
-    let singles = single_edits(z, q, t);
-    let mut firsts: Vec<(Zone, Edit)> = Vec::new();
-    for e in &singles {
-        let Some(z1) = apply(z, e) else { continue };
-        if z1.rrset(&z1.apex.clone(), ty::SOA).is_none() {
-            continue;
-        }
-        if matches!(claim_truth(&z1, q, t, claim), Truth::False(_)) && contains(&z1) {
-            return Some((z1, vec![e.clone()]));
-        }
-        firsts.push((z1, e.clone()));
-    }
-    let mut tried = 0usize;
-    for (z1, e1) in &firsts {
-        for e2 in &singles {
-            if tried >= max_double {
-                return None;
-            }
-            tried += 1;
-            let Some(z2) = apply(z1, e2) else { continue };
-            if matches!(claim_truth(&z2, q, t, claim), Truth::False(_)) && contains(&z2) {
-                return Some((z2, vec![e1.clone(), e2.clone()]));
-            }
-        }
-    }
-    None
+    let w = wildcard_of(&suffix(q, labels));
+    z.in_zone(&w) && !z.occluded(&w) && !z.is_delegation(&w) && z.rrset(&w, t).is_some()
 }
 
 pub fn nsec_subset_of_chain(s: &[Nsec], z: &Zone) -> bool {
@@ -359,16 +369,34 @@ pub fn nsec_subset_of_chain(s: &[Nsec], z: &Zone) -> bool {
     s.iter().all(|r| chain.contains(r))
 }
 
-pub fn nsec3_subset_of_chain(s: &[Nsec3], z: &Zone, p: &Nsec3Params) -> bool {
-    let chain = nsec3_chain(z, p);
-    s.iter().all(|r| chain.iter().any(|c| c.hash == r.hash && c.next == r.next && c.types == r.types && c.opt_out == r.opt_out))
+// ---------------------------------------------------------------------------------------------
+// applying the edits of a counter-model on the slow model
+
+pub fn filler_rdata(t: u16, apex: &[Vec<u8>]) -> Vec<u8> {
+    match t {
+        x if x == ty::A => refzone::rd_a(200),
+        x if x == ty::AAAA => refzone::rd_aaaa(200),
+        x if x == ty::MX => refzone::rd_mx(5, apex),
+        x if x == ty::CNAME || x == ty::NS => refzone::rd_name(&child(b"ns", apex)),
+        x if x == ty::DS => refzone::rd_ds(77),
+        x if x == ty::SOA => refzone::rd_soa(&refzone::name("ns.y."), &refzone::name("h.z."), 10, 3600, 600, 86400, 300),
+        x if x == ty::TXT => refzone::rd_txt("counter-model"),
+        // DNSKEY and anything else: opaque but well-formed for DNSKEY (flags 256, proto 3, alg 15, 32 octets)
+        _ => {
+            let mut v = vec![1, 0, 3, 15];
+            v.extend_from_slice(&[7u8; 32]);
+            v
+        }
+    }
 }
 
-pub fn show_edit(e: &Edit) -> String {
-    match e {
-        Edit::Remove(n) => format!("remove {}", refzone::show(n)),
-        Edit::SetOnly(n, t) => format!("set {} to only {}", refzone::show(n), refzone::type_name(*t)),
-        Edit::AddType(n, t) => format!("add {} at {}", refzone::type_name(*t), refzone::show(n)),
+/// Replace the content of node `n` by exactly the given types (filler RDATA; RDATA never matters
+/// for chains or claims).
+pub fn set_node(z: &mut Zone, n: &[Vec<u8>], types: &[u16]) {
+    let apex = z.apex.clone();
+    z.remove_name(n);
+    for t in types {
+        z.add(n, *t, filler_rdata(*t, &apex));
     }
 }
 
